@@ -630,7 +630,12 @@ def parse_omega(body, previous_block=None):
                 opts['diagonal'] = size
         elif u == 'SAME':
             opts['same'] = True
+            opts['same_count'] = 1
             i += 1
+            if i + 2 < len(toks) and toks[i] == '(' and toks[i + 2] == ')':
+                # SAME(m): the previous block is repeated m times
+                opts['same_count'] = int(toks[i + 1])
+                i += 3
         elif u in ('FIX', 'FIXED'):
             if vals and opts['block'] is None:
                 vals[-1] = (vals[-1][0], True)
@@ -683,7 +688,7 @@ def parse_omega(body, previous_block=None):
             if previous_block is None:
                 raise Unsupported('SAME without previous block')
             return [dict(size=previous_block['size'], matrix=previous_block['matrix'], fix=previous_block['fix'],
-                         same=True)]
+                         same=True) for _ in range(opts.get('same_count', 1))]
         n = opts['block']
         if n == -1:
             raise Unsupported('BLOCK without size')
